@@ -6,6 +6,8 @@ is type-checked with `cargo check --offline` against /repo's current working tre
 directories under /tmp, removed afterwards). No zbus code is executed.
 
   F-CRATE   <crate>[features]            the crate type-checks with exactly that feature selection
+            (the quick matrix is interaction-directed: the feature sets of all multi-feature `cfg(..)` predicates
+            in the crate's sources are enumerated, closed under the crate's own feature implications)
   F-DOWN    downstream:<name>            a generated downstream crate (path deps on /repo) type-checks;
                                          its lib.rs uses the derive / proxy / interface macros so that the
                                          macro expansions are type-checked under that feature unification
@@ -16,7 +18,8 @@ from .. import facts as factsmod
 META = {
     "engine": "zfeat (cargo check matrix)",
     "technique": "static analysis: rustc type checker over an enumerated feature-configuration matrix and generated downstream manifests (cargo check --offline; nothing is run)",
-    "level": "Every enumerated feature configuration (quick: the code-gating features gvariant, option-as-array, p2p, bus-impl and both zbus backends; "
+    "level": "Every enumerated feature configuration (quick: the code-gating features gvariant, option-as-array, p2p, bus-impl, both zbus backends, and "
+             "every on/off assignment of the features that occur together in one cfg predicate of the sources, re-read on every run; "
              "thorough: every single feature, all, and feature powersets) and each generated downstream crate is type-checked. Decides 'builds' up to type checking; "
              "codegen/link errors after type checking are not decided. Platform-only code is checked for the host only.",
 }
